@@ -116,6 +116,16 @@ static Out cpp_side(const xv_req *r) {
       xrlpp::Crystal::Struct copy(*orig);
       xrlpp::Crystal::Struct rebuilt(orig->name, orig->a, orig->b, orig->c, orig->alpha, orig->beta, orig->gamma, orig->volume, orig->atom);
       delete orig;
+      {   /* construction from rvalues (explicit move, a temporary pushed into a container): whatever constructor the class offers for it,
+           * both objects must stay usable and release their C objects exactly once */
+        xrlpp::Crystal::Struct src(copy);
+        xrlpp::Crystal::Struct moved(std::move(src));
+        std::vector<xrlpp::Crystal::Struct> v; v.push_back(xrlpp::Crystal::GetCrystal(str)); v.push_back(std::move(moved));
+        std::complex<double> zm = v[0].F_H_StructureFactor(r->d[0], r->i[0], r->i[1], r->i[2], r->d[1], r->d[2]);
+        std::complex<double> zn = v[1].F_H_StructureFactor(r->d[0], r->i[0], r->i[1], r->i[2], r->d[1], r->d[2]);
+        std::complex<double> z0 = copy.F_H_StructureFactor(r->d[0], r->i[0], r->i[1], r->i[2], r->d[1], r->d[2]);
+        if ((zm != z0 && !(zm != zm && z0 != z0)) || (zn != z0 && !(zn != zn && z0 != z0))) { o.kind = 4; o.what = "crystal constructed from an rvalue disagrees with its source"; }
+      }
       std::complex<double> z = copy.F_H_StructureFactor(r->d[0], r->i[0], r->i[1], r->i[2], r->d[1], r->d[2]);
       std::complex<double> z2 = rebuilt.F_H_StructureFactor(r->d[0], r->i[0], r->i[1], r->i[2], r->d[1], r->d[2]);
       if (z != z2 && !(z != z && z2 != z2)) { o.kind = 4; o.what = "copy and rebuilt crystal disagree"; }
@@ -153,6 +163,22 @@ static void scenario_addcrystal(int fd) {
   int n0 = 0; char **l0 = Crystal_GetCrystalsList(NULL, &n0, NULL); if (l0) { for (int k = 0; l0[k]; k++) xrlFree(l0[k]); xrlFree(l0); }
   xrlpp::Crystal::Struct base = xrlpp::Crystal::GetCrystal("Si");
   int accepted = 0, refused = 0;
+  {   /* names longer than the 20 characters a crystal FILE can carry are legal through the constructor: added, listed and found under the full name */
+    const std::string ln[2] = { "XvCppLongName_0123456789_abcdef", "XvCppLongName_012345Z789_abcdef" };     /* equal in their first 20 characters */
+    for (int j = 0; j < 2; j++) {
+      xrlpp::Crystal::Struct c(ln[j], base.a + 0.5 + j, base.b, base.c, base.alpha, base.beta, base.gamma, 0.0, base.atom);
+      Out w = guarded([&](Out &o) { o.v[0] = c.AddCrystal(); });
+      if (w.kind != 0 || w.v[0] != 1) { say("c18:Crystal::AddCrystal:long-name-refused", "adding a crystal named '" + ln[j] + "': " + KN[w.kind > 4 ? 4 : w.kind] + " " + w.what); continue; }
+      Crystal_Struct *cc = Crystal_GetCrystal(ln[j].c_str(), NULL, NULL);
+      if (!cc) say("c18:Crystal::Struct:name-differs-in-C-object", "a crystal constructed with the name '" + ln[j] + "' and added through the wrapper is not found by C under that name");
+      else { if (cc->a != base.a + 0.5 + j) say("c18:Crystal::Struct:name-differs-in-C-object", "C finds another crystal under the name '" + ln[j] + "'"); Crystal_Free(cc); }
+      Out g = guarded([&](Out &o) { xrlpp::Crystal::Struct f = xrlpp::Crystal::GetCrystal(ln[j]); o.what = f.name; o.v[0] = f.a; });
+      if (g.kind != 0 || g.what != ln[j] || g.v[0] != base.a + 0.5 + j) say("c18:Crystal::GetCrystal:long-name-not-found", "wrapper lookup of '" + ln[j] + "': " + KN[g.kind > 4 ? 4 : g.kind] + " " + g.what);
+      Out lw = guarded([&](Out &o) { std::vector<std::string> v = xrlpp::Crystal::GetCrystalsList(); for (auto &x : v) if (x == ln[j]) o.aux = 1; });
+      if (lw.kind != 0 || lw.aux != 1) say("c18:Crystal::GetCrystalsList:long-name-missing", "the wrapper's list does not hold '" + ln[j] + "'");
+    }
+  }
+  { int nn = 0; char **l1 = Crystal_GetCrystalsList(NULL, &nn, NULL); if (l1) { for (int k = 0; l1[k]; k++) xrlFree(l1[k]); xrlFree(l1); n0 = nn; } }
   for (int k = 0; k < CRYSTALARRAY_MAX + 8 - n0; k++) {
     char name[40]; snprintf(name, sizeof name, "XvCpp%04d", k);
     xrlpp::Crystal::Struct c(name, base.a + 0.001 * k, base.b, base.c, base.alpha, base.beta, base.gamma, 0.0, base.atom);
